@@ -1,10 +1,10 @@
 SPECIFICATION Spec
 CONSTANTS
   InitLists <- InitAll
-  Keys <- KeysAll
-  Values <- ValuesAll
+  Keys <- KeysFew
+  Values <- ValuesFew
   DataParts <- DataAll
-  BoxSet <- BoxesAll
+  BoxSet <- BoxesFew
   BoxLists <- BoxListsAll
   MaxOps = 3
   ExportHist = TRUE
